@@ -93,6 +93,7 @@ class EvRun:
         self.flush_req = []
         self.flush_fired = {}
         self.fire_vals = {}
+        self.cbargs = {}
 
     def bad(self, sig, text):
         self.viol.append((sig, text))
@@ -115,7 +116,10 @@ class EvRun:
     def make(self, script):
         i, acts, raises = script
 
-        def cb():
+        def cb(*a, **kw):
+            if (tuple(a), kw) != self.cbargs.get(i, ((), {})):
+                self.bad("oracle/arguments-changed", "callable %d was submitted with arguments %r and called with %r %r"
+                         % (i, self.cbargs.get(i, ((), {})), tuple(a), kw))
             self.started(i)
             self.depth += 1
             try:
@@ -136,10 +140,12 @@ class EvRun:
     def act(self, a):
         if a[0] == "enq":
             s = a[1]
+            xp, xk = (a[2][0], a[2][1]) if len(a) > 2 else ([], {})
+            self.cbargs[s[0]] = (tuple(xp), dict(xk))
             self.submit_mark(s[0])
             self.in_submit = s[0]
             try:
-                r = ev.eventually(self.make(s))
+                r = ev.eventually(self.make(s), *xp, **xk)
             finally:
                 self.in_submit = None
             if r is not None:
@@ -285,8 +291,9 @@ class Target(object):
         self.run = run
         self.v = v
 
-    def m(self, mid, beh):
-        return self.run.invoked(self, mid, beh)
+    def m(*a, **kw):
+        # no named parameters at all: every keyword of the message (also `self`, `mid`, ...) lands in kw
+        return a[0].run.invoked(a[0], a[1], a[2], tuple(a[3:]), kw)
 
 
 # measured, not proved: _resolve2 is never entered on a promise that is already NEAR/BROKEN (the model records such an
@@ -322,14 +329,19 @@ class PrRun:
         self.in_op = False
         self.nrefused = 0
         self.nchained = 0
+        self.extra = {}             # mid -> (positional extras, keyword extras) of the message
 
     def bad(self, sig, text):
         self.viol.append((sig, text))
 
-    def invoked(self, target, mid, beh):
+    def invoked(self, target, mid, beh, pos=(), kw=None):
         p = self.msg[mid][0]
         self.trace.append([2, p, mid, target.v])
         self.deliv.setdefault(p, []).append(mid)
+        want = self.extra.get(mid, ((), {}))
+        if (tuple(pos), dict(kw or {})) != (tuple(want[0]), dict(want[1])):
+            self.bad("oracle/arguments-changed", "message %d was sent with extra arguments %r %r and arrived with %r %r"
+                     % (mid, tuple(want[0]), want[1], tuple(pos), kw))
         if self.in_op:
             self.bad("oracle/delivered-synchronously", "message %d was delivered to promise %d's target before the send returned / "
                      "outside a reactor turn" % (mid, p))
@@ -374,17 +386,19 @@ class PrRun:
         try:
             if k in ("send", "sendonly"):
                 mid, beh = o[2], o[3]
+                xp, xk = (o[4][0], o[4][1]) if len(o) > 4 else ([], {})
+                self.extra[mid] = (tuple(xp), dict(xk))
                 ridx = len(self.P) if k == "send" else None
                 self.msg[mid] = (p, beh, ridx)
                 try:
                     if k == "send":
-                        rp = pm.send(prom).m(mid, beh)
+                        rp = pm.send(prom).m(mid, beh, *xp, **xk)
                         if not isinstance(rp, pm.Promise):
                             self.bad("oracle/send-result", "send() returned %r" % (rp,))
                         self.P.append(rp)
                         self.result_of[ridx] = mid
                     else:
-                        r = pm.sendOnly(prom).m(mid, beh)
+                        r = pm.sendOnly(prom).m(mid, beh, *xp, **xk)
                         if r is not None:
                             self.bad("oracle/send-result", "sendOnly() returned %r" % (r,))
                     self.trace.append([1, p, mid])
@@ -396,9 +410,14 @@ class PrRun:
                     self.bad("oracle/attribute-error", "send to promise %d raised %r" % (p, e))
             elif k == "when":
                 w, kind = o[2], o[3]
+                xp, xk = (o[4][0], o[4][1]) if len(o) > 4 and kind != "when" else ([], {})
                 self.watch.setdefault(p, []).append((w, kind))
 
-                def told(x, w=w, p=p):
+                def told(*a, **kw):
+                    x = a[0]
+                    if (tuple(a[1:]), kw) != (tuple(xp), dict(xk)):
+                        self.bad("oracle/arguments-changed", "observer %d of promise %d was registered with extra arguments %r %r "
+                                 "and called with %r %r" % (w, p, tuple(xp), xk, tuple(a[1:]), kw))
                     c = canon_outcome(x)
                     self.trace.append([3, p, w, c[0], c[1]])
                     self.seen.setdefault(w, []).append(c)
@@ -407,10 +426,10 @@ class PrRun:
                     if kind == "when":
                         pm.when(prom).addBoth(told)
                     elif kind == "then":
-                        if prom._then(told) is not prom:
+                        if prom._then(told, *xp, **xk) is not prom:
                             self.bad("oracle/then-result", "_then did not return the promise")
                     else:
-                        if prom._except(told) is not prom:
+                        if prom._except(told, *xp, **xk) is not prom:
                             self.bad("oracle/then-result", "_except did not return the promise")
                 except (AttributeError, TypeError) as e:
                     self.trace.append([5, p])
@@ -751,3 +770,35 @@ def flush_observer_oracle(ctx):
                     ctx.fail("oracle/flush-notified-after-earlier-observer-enqueued",
                              "flush observer %d was notified while %d callable(s) queued by an earlier observer's callback had not "
                              "run; %s" % (bad[0][0], bad[0][1], json.dumps(cfg)), replay=dict(kind="flushobs", cfg=cfg, log=log))
+
+
+
+# =====================================================================================
+#   argument names that collide with parameters / locals of the functions on the delivery path
+# =====================================================================================
+def colliding_names():
+    """every parameter and local-variable name of the functions of foolscap.promise / foolscap.eventual (read from the
+    tree under test) and of the Twisted functions they call, plus a fixed list; deterministic order"""
+    import inspect, keyword
+    names = set(["f", "callable", "func", "self", "args", "kwargs", "methname", "resolver", "_", "name", "cb", "method",
+                 "callback", "errback", "result", "value", "fn", "function", "target", "kw", "a", "k"])
+    def scan(obj):
+        for _, fn in inspect.getmembers(obj, lambda x: inspect.isfunction(x)):
+            names.update(fn.__code__.co_varnames)
+    for mod in (pm, ev):
+        scan(mod)
+        for _, cls in inspect.getmembers(mod, inspect.isclass):
+            if cls.__module__ == mod.__name__:
+                scan(cls)
+    for fn in (defer.maybeDeferred, defer.Deferred.addCallbacks, defer.Deferred.addBoth, defer.Deferred.addCallback,
+               defer.Deferred.callback, defer.succeed, defer.fail, defer.execute):
+        names.update(fn.__code__.co_varnames[:fn.__code__.co_argcount + 2])
+    return sorted(n for n in names if n.isidentifier() and not keyword.iskeyword(n))
+
+
+def entry_point_params(fn):
+    """named parameters of a public entry point: a caller cannot pass its callable a keyword of that name (Python binds
+    it to the entry point's own parameter: TypeError at the call, nothing is queued)"""
+    import inspect
+    return [p.name for p in inspect.signature(fn).parameters.values()
+            if p.kind in (p.POSITIONAL_OR_KEYWORD, p.KEYWORD_ONLY)]
